@@ -28,6 +28,10 @@ func NaturalAlgo(k int) (algo, sigFmt string) {
 		return "ssh-ed25519-cert-v01@openssh.com", "ssh-ed25519"
 	case 6:
 		return "rsa-sha2-512-cert-v01@openssh.com", "rsa-sha2-512"
+	case 9:
+		return SKEd25519, SKEd25519
+	case 10, 11:
+		return SKEd25519Cert, SKEd25519
 	}
 	return "ssh-ed25519", "ssh-ed25519"
 }
@@ -97,7 +101,7 @@ func RandReq(r *hx.Rand, g *hx.Gen) Req {
 			return q
 		}
 	case 6, 7, 8:
-		return Query(u, r.PickInt(1, 1, 2, 3, 4, 5, 6))
+		return Query(u, r.PickInt(1, 1, 2, 3, 4, 5, 6, 9, 10, 11))
 	case 9:
 		q := Query(u, r.PickInt(1, 2, 4, 5, 7, 8))
 		switch r.Intn(4) {
@@ -110,8 +114,12 @@ func RandReq(r *hx.Rand, g *hx.Gen) Req {
 		return q
 	}
 	// signature requests
-	k := r.PickInt(1, 1, 1, 2, 3, 4, 4, 5, 6, 6, 7, 8)
+	k := r.PickInt(1, 1, 1, 2, 3, 4, 4, 5, 6, 6, 7, 8, 9, 9, 10, 10, 11)
 	q := Sign(u, k)
+	if k >= 9 {
+		q.SigNoUP = r.Chance(1, 2)
+		g.Stat("req.sk-signature")
+	}
 	switch r.Intn(12) {
 	case 0:
 		q.Algo = hx.Pick(r, allAlgos)
@@ -147,7 +155,7 @@ func RandReq(r *hx.Rand, g *hx.Gen) Req {
 
 // ---- scripted outcomes
 
-var randOutcomes = []string{"A0", "A1", "A1", "A2", "A3", "R", "R", "B0", "B1", "P111.0", "P010.0", "P100.0", "P001.0", "P000.0", "P110.1", "P011.0"}
+var randOutcomes = []string{"A0", "A1", "A1", "A2", "A3", "A4", "A4", "R", "R", "B0", "B1", "P111.0", "P010.0", "P100.0", "P001.0", "P000.0", "P110.1", "P011.0"}
 
 // SetOutcomes fills cb / vcb of every request according to a table:
 //
@@ -177,9 +185,9 @@ func SetOutcomes(r *hx.Rand, table int, reqs []Req) {
 		case 3:
 			q.Cb, q.Vcb = hx.Pick(r, randOutcomes), hx.Pick(r, randOutcomes)
 		case 4:
-			q.Cb, q.Vcb = r.PickStr("A1", "A2", "A3", "A0", "R"), r.PickStr("A1", "A2", "A3", "A0")
+			q.Cb, q.Vcb = r.PickStr("A1", "A2", "A3", "A0", "R", "A4"), r.PickStr("A1", "A2", "A3", "A0")
 		default:
-			q.Cb, q.Vcb = r.PickStr("A1", "A3"), hx.Pick(r, randOutcomes)
+			q.Cb, q.Vcb = r.PickStr("A1", "A3", "A4"), hx.Pick(r, randOutcomes)
 		}
 	}
 }
@@ -223,12 +231,14 @@ func MkPerm(addr string, entries []string, noTouch bool) PermRow {
 	return p
 }
 
-// StdPerms: 1 = no options, 2 = source-address that does not match 10.1.2.3, 3 = one that does.
+// StdPerms: 1 = no options, 2 = source-address that does not match 10.1.2.3, 3 = one that does,
+// 4 = the no-touch-required extension.
 func StdPerms(addr string) map[int]PermRow {
 	return map[int]PermRow{
 		1: MkPerm(addr, nil, false),
 		2: MkPerm(addr, []string{"192.168.7.7", "172.16.0.0/12"}, false),
 		3: MkPerm(addr, []string{"192.168.7.7", "10.0.0.0/8"}, false),
+		4: MkPerm(addr, nil, true),
 	}
 }
 
@@ -272,6 +282,10 @@ func RandCfg(r *hx.Rand, friendly bool) Cfg {
 func Finish(c Cfg, reqs []Req) string {
 	Init()
 	for i := range reqs {
+		// for SK formats anything after the blob is the flags/counter field, not trailing garbage
+		if strings.HasPrefix(reqs[i].SigFmt, "sk-") && reqs[i].SigShape == "btrail" {
+			reqs[i].SigShape = "trail"
+		}
 		reqs[i].FillOracle()
 	}
 	return c.String(reqs)
